@@ -50,7 +50,7 @@ class IPv6Unicast(NLRI):
             else:
                 prefix_byte_len = prefix_bit_len // 8 + 1
             offset = prefix_byte_len + 1
-            prefix_bit = nlri_data[1:offset]
+            prefix_bit = cls.clear_trailing_bits(nlri_data[1:offset], prefix_bit_len)
             # append zero
             zero_len = (128 - prefix_bit_len) // 8
             for i in range(0, zero_len):
